@@ -102,3 +102,73 @@ Definition htlc_model (c : htlc_case) : N :=
   at_level level (sres_code r).
 
 Definition check_htlc (c : htlc_case) : bool := htlc_model c =? snd c.
+
+(** * Handler level (vls-protocol-signer/src/handler.rs)
+
+    The glue between a wire request and the Channel call, written out: which input index is
+    passed (0 for the per-channel messages, the message's [input] for the SignAny* ones), the
+    amount ([psbt.inputs[input].witness_utxo.value], in satoshi, a panic when the PSBT input or
+    its witness_utxo is missing), the wallet path ([extract_psbt_output_paths(psbt)[0]]:
+    [unimplemented!] on any output with two key origins, an index panic inside the channel
+    closure when the PSBT has no outputs), the channel look-up by peer id and dbid.  Every error
+    of the handler is one class (150). *)
+
+(** witness_utxo value of each PSBT input (None: absent) *)
+Definition psbt_ins : Type := list (option N).
+
+Definition glue_amount (p : psbt_ins) (input : N) : option N :=
+  match nthN p input with Some (Some a) => Some a | _ => None end.
+
+Definition collapse (c : N) : N := if c <? 100 then c else 150.
+
+(** ((PSBT inputs, number of key origins of each PSBT output, SignAny* variant, channel found),
+     the request as a [sweep_case] whose [input] is the wire field) *)
+Definition hsweep_case : Type := (psbt_ins * list N * bool * bool) * sweep_case.
+
+Definition hsweep_model_with (sel : seqsel) (c : hsweep_case) : N :=
+  let '((p, origins, any, found), ((prof, rules, _, kind), (s, h, t, input, rs, tbl, cnnh), obs)) := c in
+  let input' := if any then input else 0 in
+  match glue_amount p input' with
+  | None => 1
+  | Some _ =>
+      if existsb (fun n => 1 <? n) origins then 1
+      else if negb found then 150
+      else if lenN origins =? 0 then 1
+      else collapse (sweep_model_with sel ((prof, rules, 1, kind), (s, h, t, input', rs, tbl, cnnh), obs))
+  end.
+Definition hsweep_obs (c : hsweep_case) : N := snd (snd c).
+Definition check_hsweep (c : hsweep_case) : bool := hsweep_model_with SignedInput c =? hsweep_obs c.
+Definition check_hsweep_old (c : hsweep_case) : bool := hsweep_model_with FirstInput c =? hsweep_obs c.
+
+(** second-level HTLC transactions.
+    ((PSBT inputs, whether each PSBT output carries a witness_script, message (0 SignLocalHtlcTx,
+      1 SignAnyLocalHtlcTx, 2 SignRemoteHtlcTx), wire input, channel found),
+     the request as an [htlc_case]; its amount slot is ignored, the glue supplies it) *)
+Definition hhtlc_case : Type := (psbt_ins * list bool * N * N * bool) * htlc_case.
+
+Definition hhtlc_model (c : hhtlc_case) : N :=
+  let '((p, wits, msg, input, found),
+        ((prof, rules, pol, _, _), (s, keys, tbl, t, rs_id, rs, _, (_, cn, nh)), obs)) := c in
+  let out0_wit := match wits with true :: _ => true | _ => false end in
+  if msg =? 2 then
+    (* SignRemoteHtlcTx: four assert_eq!, then the amount of PSBT input 0 and the witscript of output 0 *)
+    if negb ((lenN wits =? 1) && (lenN p =? 1) && (lenN (tx_outs t) =? 1) && (lenN (tx_ins t) =? 1)) then 1
+    else match glue_amount p 0 with
+         | None => 1
+         | Some a =>
+             if negb out0_wit then 1
+             else if negb found then 150
+             else collapse (htlc_model ((prof, rules, pol, 1, 1),
+                                        (s, keys, tbl, t, rs_id, rs, a, (false, cn, nh)), obs))
+         end
+  else
+    let input' := if msg =? 1 then input else 0 in
+    match glue_amount p input' with
+    | None => 1
+    | Some a =>
+        if negb out0_wit then 1
+        else if negb found then 150
+        else collapse (htlc_model ((prof, rules, pol, 1, 0),
+                                   (s, keys, tbl, t, rs_id, rs, a, (false, cn, nh)), obs))
+    end.
+Definition check_hhtlc (c : hhtlc_case) : bool := hhtlc_model c =? snd (snd c).
